@@ -54,6 +54,8 @@ def gen_case(streams, tier):
         'merge': g.random() < 0.5, 'update_wb': g.random() < 0.5,
         'wb': g.choice(['dut', 'other', 'dut_implicit']),
         'sched': world.gen_sched(streams, with_iter=False),
+        'again': [[g.random() < 0.5, g.random() < 0.5, g.choice(['dut', 'other', 'dut_implicit'])]
+                  for _ in range(g.choice([0, 0, 0, 1, 1, 2]))],
     }
 
 
@@ -64,35 +66,51 @@ def _bits(val, n):
 def run(case, res):
     import pyrtl
     script = case['script']
-    init = case['init']
     sched = case['sched']
     world.setup_world(sched)
     b = world.build_dut(script, sched)
+    v = _sitting(case, res, b, case['merge'], case['update_wb'], case['wb'], 0)
+    if v is not None:
+        return v
+    # the same design object (same wires, same MemBlocks) is synthesized again, under other
+    # settings: synthesize reads its source, so every sitting must stand on its own
+    for k, (merge, update_wb, wb) in enumerate(case.get('again', [])):
+        v = _sitting(case, res, b, merge, update_wb, wb, k + 1)
+        if v is not None:
+            return v
+        res.probes.hit('synthesized_again')
+    return None
+
+
+def _sitting(case, res, b, merge, update_wb, wb, sitting):
+    import pyrtl
+    script = case['script']
+    init = case['init']
     orig = b.block
     other = pyrtl.Block()
-    if case['wb'] == 'other':
+    if wb == 'other':
         pyrtl.set_working_block(other, no_sanity_check=True)
     else:
         pyrtl.set_working_block(orig, no_sanity_check=True)
     wb_before = pyrtl.working_block()
-    tags0 = ['merge' if case['merge'] else 'unmerged']
+    tags0 = ['merge' if merge else 'unmerged'] + (['sitting:again'] if sitting else [])
     if any(not m.get('rom') for m in script['mems']):
         tags0.append('has_mem')
     if script['mems']:
         tags0.append('has_mem_or_rom')
     try:
-        if case['wb'] == 'dut_implicit':
-            syn = pyrtl.synthesize(update_working_block=case['update_wb'],
-                                   merge_io_vectors=case['merge'])
+        if wb == 'dut_implicit':
+            syn = pyrtl.synthesize(update_working_block=update_wb,
+                                   merge_io_vectors=merge)
         else:
-            syn = pyrtl.synthesize(update_working_block=case['update_wb'],
-                                   merge_io_vectors=case['merge'], block=orig)
+            syn = pyrtl.synthesize(update_working_block=update_wb,
+                                   merge_io_vectors=merge, block=orig)
     except Exception as e:
         return Violation('synthesize', 'raises_on_valid_design', {'exc': repr(e)[:300]}, tags0)
-    res.log.log('pass', 'synthesize', [case['merge'], case['update_wb'], case['wb']], len(syn.logic))
-    res.probes.hit('merge' if case['merge'] else 'unmerged')
+    res.log.log('pass', 'synthesize', [merge, update_wb, wb], len(syn.logic))
+    res.probes.hit('merge' if merge else 'unmerged')
     wb_after = pyrtl.working_block()
-    if case['update_wb']:
+    if update_wb:
         if wb_after is not syn:
             return Violation('working_block', 'not_updated', {}, tags0)
     elif wb_after is not wb_before:
@@ -101,7 +119,7 @@ def run(case, res):
     if s:
         return Violation('structure', 'result_not_well_formed', {'exc': s}, tags0)
     # ---- (1) structure ------------------------------------------------------------------
-    has_io_vec_or_mem = case['merge'] or bool(script['mems'])
+    has_io_vec_or_mem = merge or bool(script['mems'])
     for net in syn.logic:
         if net.op not in '~&|^nrwm@cs':
             return Violation('structure', 'illegal_op', {'op': net.op}, tags0)
@@ -141,7 +159,7 @@ def run(case, res):
                                  {'original': m.name, 'mapped_to': v.name}, tags0 + ['mem_map'])
     for w in ios:
         lst = syn.io_map[w]
-        want = 1 if case['merge'] else w.bitwidth
+        want = 1 if merge else w.bitwidth
         if len(lst) != want or any(x not in syn.wirevector_set for x in lst):
             return Violation('maps', 'io_map_values', {'wire': w.name, 'n': len(lst)}, tags0)
     for r in regs:
@@ -166,7 +184,7 @@ def run(case, res):
     outs = nl_o.outputs()
     # translate the stimulus and state through the maps (what a user's testbench does)
     by_name = orig.wirevector_by_name
-    if case['merge']:
+    if merge:
         tape_s = tape
     else:
         tape_s = []
@@ -192,7 +210,7 @@ def run(case, res):
             r = {}
             for o in outs:
                 lst = syn.io_map[by_name[o]]
-                if case['merge']:
+                if merge:
                     r[o] = row_getter(c, lst[0].name)
                 else:
                     r[o] = sum(row_getter(c, w.name) << i for i, w in enumerate(lst))
@@ -284,6 +302,10 @@ def candidates(case):
     if case['wb'] != 'dut':
         c = copy.deepcopy(case)
         c['wb'] = 'dut'
+        yield c
+    if case.get('again'):
+        c = copy.deepcopy(case)
+        c['again'] = case['again'][:-1]
         yield c
     for s in shrink.script_candidates(case['script']):
         c = copy.deepcopy(case)
